@@ -4,8 +4,8 @@ import os
 from tla import to_tla, to_tla_fn
 
 
-def bop(name, port=1, prog=1):
-    return dict(op=name, port=port, prog=prog)
+def bop(name, port=1, prog=1, take=-1):
+    return dict(op=name, port=port, prog=prog, take=take)
 
 
 NOP = bop("nop")
@@ -15,8 +15,9 @@ def send(port, prog):
     return bop("send", port, prog)
 
 
-def query(port, prog):
-    return bop("query", port, prog)
+def query(port, prog, take=-1):
+    """take: number of replies read from the reply iterator before it is dropped (-1: all)."""
+    return bop("query", port, prog, take)
 
 
 def conn(tgt, mode="plain", accept=(), delta=0):
@@ -95,6 +96,14 @@ bench("query", ["A", "B", "C"],
              "B": [out(conn("sink:s1"))], "C": [out(conn("sink:s1"))]},
       sinks=["s1"],
       procs=[ev("A", 1), qr("B", 3)])
+
+# Successive queries on one requestor whose reply iterators are read only in part (or not at all) before being dropped:
+# the next query must still return one reply per accepting replier.
+bench("qpartial", ["A", "B", "C", "D"],
+      prog=[[query(1, 2, take=1), query(1, 2), query(1, 2, take=0), query(1, 2)],  # 1 (A)
+            [NOP]],                                                                   # 2 (replier)
+      ports={"A": [req(conn("B"), conn("C", "map", delta=0), conn("D"))]},
+      procs=[ev("A", 1)])
 
 # Saturating loop: A floods B (capacity 1) whose handler answers back to A (capacity 1): the outcome depends
 # on the schedule (completes or deadlocks); governed by the deadlock-report property.
@@ -194,6 +203,14 @@ for j in range(4):
           ports={"A": [out(conn("A")), req(conn("A"))]},
           procs=[ev("A", 1)] * j + [ev("A", 2)])
 
+
+# A model panics while a message it has just sent is still in flight: the count of in-flight messages of the aborted run
+# must not leak into the runs that follow on the same thread (each schedule of the enumeration is a new simulation).
+bench("panic_inflight", ["A", "B", "C"],
+      prog=[[send(1, 2), send(2, 2), bop("panic")],   # 1 (A): two events sent, then a panic
+            [NOP]],                                    # 2
+      ports={"A": [out(conn("B")), out(conn("C"))]},
+      procs=[ev("B", 2), ev("A", 1)])
 
 # Panic attribution in a hierarchy: the panicking model is named by its fully qualified name.
 for who in ("P", "P.a", "P.b", "P.a.x", "Q"):
